@@ -68,6 +68,7 @@ ModesAll == {"writer", "response", "reader", "plain", "bytes"}
 ModesC12 == {"writer", "response", "reader", "bytes"}
 ModesC14 == {"plain", "writer", "reader"}
 ModesW == {"writer"}
+ModesB == {"bytes"}
 ModesWH == {"writer", "response"}
 ModesH == {"response"}
 ModesP == {"plain"}
@@ -90,7 +91,7 @@ Expected(inb, by) == [i \in 1..MaxOut |-> Piece(inb, by, i)]
 Flat(ps) == [k \in 1..(Len(ps) * PieceLen) |-> ps[((k-1) \div PieceLen) + 1][((k-1) % PieceLen) + 1]]
 
 Base == [failfrom |-> 0, srcfail |-> -1, srcshort |-> FALSE, notexist |-> FALSE, probeOnErr |-> TRUE,
-         ct |-> "none", ext |-> "U", cl |-> "none", wh |-> "no", mw |-> "rw", gate |-> "none", cbuf |-> 1, after |-> FALSE]
+         ct |-> "none", ext |-> "U", cl |-> "none", wh |-> "no", mw |-> "rw", gate |-> "none", cbuf |-> 1, after |-> FALSE, dirty |-> FALSE]
 SrcFaults == {<<-1, FALSE>>} \cup {<<s, sh>> \in (0..Len(Input)) \X BOOLEAN : sh => s > 0}
 \* after: the producer goes on after Close returned - one more Write, then Close again
 CfgW == { [Base EXCEPT !.failfrom = f, !.notexist = ne, !.gate = g, !.after = a] :
@@ -99,7 +100,8 @@ CfgR == { [Base EXCEPT !.srcfail = s[1], !.srcshort = s[2], !.notexist = ne, !.p
             s \in SrcFaults, ne \in BOOLEAN, pe \in BOOLEAN, cb \in 1..MaxBuf }
 CfgP == { [Base EXCEPT !.failfrom = f, !.srcfail = s[1], !.srcshort = s[2], !.notexist = ne, !.probeOnErr = pe] :
             f \in 0..(MaxOut+1), s \in SrcFaults, ne \in BOOLEAN, pe \in BOOLEAN }
-CfgB == { [Base EXCEPT !.notexist = ne] : ne \in BOOLEAN }
+\* dirty: an earlier helper call failed after it had produced output (call history of Bytes / String)
+CfgB == { [Base EXCEPT !.notexist = ne, !.dirty = d] : ne \in BOOLEAN, d \in BOOLEAN }
 CfgHFull == { [Base EXCEPT !.failfrom = f, !.ct = ct, !.ext = ex, !.cl = cl, !.wh = wh, !.mw = mw, !.gate = g] :
             f \in 0..(MaxOut+1), ct \in {"none", "K1", "K2", "U"}, ex \in {"K1", "U"}, cl \in {"none", "stale"},
             wh \in {"no", "first", "last"}, mw \in {"rw", "mwerr"}, g \in {"none", "close"} }
@@ -154,7 +156,10 @@ Init == /\ mode \in Modes
         \* design "addinside" the goroutine does the Add itself (state "spawned" until then)
         /\ wk = [st |-> IF mode = "response" THEN "none" ELSE Born, inbuf |-> <<>>, left |-> <<>>,
                  err |-> "nil", zerr |-> "nil", by |-> "K1", added |-> Mut # "addinside"]
-        /\ sink = [calls |-> 0, delivered |-> <<>>, hit |-> FALSE, open |-> FALSE]
+        \* Bytes / String write into a fresh buffer per call; the wrong design "dirtybuf" reuses a pooled buffer that an
+        \* earlier failed call left dirty
+        /\ sink = [calls |-> 0, hit |-> FALSE, open |-> FALSE,
+                   delivered |-> IF mode = "bytes" /\ cfg.dirty /\ Mut = "dirtybuf" THEN <<Piece(<<>>, "stale", 0)>> ELSE <<>>]
         /\ src = [given |-> 0, hit |-> FALSE]
         /\ http = [cl |-> cfg.cl, committed |-> "no", sel |-> "none", whdone |-> FALSE]
         /\ wgdone = FALSE
